@@ -16,21 +16,21 @@ import (
 
 func init() {
 	vRegister("vC35_across", vC35_across)
+	vRegister("vC35_across_e2e", vC35_across_e2e)
 	vRegister("vC35_bypass", vC35_bypass)
 }
 
 // ---------------------------------------------------------------------------------------------
-// Harness-owned clock = base + nominal + latency. Every clock reading, every resolution, every timer
-// creation and every delivery lets an arbitrary amount of time pass ("latency": computation,
-// scheduling); that time is accumulated in vC35_lat. Time the code under test *asks* to wait for (timer
-// durations, and the time a delivery may take within the deadline of the context it was given) is
-// accumulated in vC35_nom. elapsed = nom + lat, so the deadline claims "elapsed <= budget + latency,
-// for every value of every latency" are asserted as nom <= budget.
+// Harness-owned clock. The clock is only observable when it is read (time.Now, time.Until, and the delivery
+// looking at its deadline). Every reading is a fresh value that is at least the previous reading plus the time the
+// code under test *asked* to wait for since then (timer durations; the time a delivery takes within the deadline it
+// was given) - anything beyond that is latency (resolution, computation, scheduling, timer overshoot) and is
+// arbitrary. vC35_nom accumulates the requested waiting, so "elapsed <= budget + latency, for every latency" is
+// asserted as nom <= budget.
 // ---------------------------------------------------------------------------------------------
 var (
-	vC35_base int64
-	vC35_nom  int64
-	vC35_lat  int64
+	vC35_nom     int64 // requested waiting so far
+	vC35_pending int64 // requested waiting since the last clock reading
 
 	vC35_resolves     int
 	vC35_timers       int
@@ -48,6 +48,15 @@ var (
 	vC35_deliverErr   error
 	vC35_badTimer     bool
 	vC35_inCluster    bool
+	vC35_ownTimeout   int64
+	vC35_maxWait      int64
+	vC35_local_checks bool  // per-sleep obligations enabled (deliverAcrossHandoff entries)
+	vC35_wantStart    bool  // the next clock reading is the code's `start`
+	vC35_codeStart    int64 // the code's own reading of its start time
+	vC35_lastRead     int64 // the most recent clock reading handed to the code
+	vC35_nfSleepSeen  bool
+	vC35_cutSeen      [2]bool
+	vC35_nfFirstSleep int64 // clock reading at which the first not-found-masked sleep began
 
 	vC35_ctx        *vC35Context
 	vC35_local      *PID
@@ -87,18 +96,23 @@ func (c *vC35Context) Err() error {
 }
 func (c *vC35Context) Value(any) any { return nil }
 
-func vC35_tick() {
-	d := vNondetInt64("latency")
-	vAssume(d >= 0 && d <= 1<<40)
-	vC35_lat += d
+// a clock reading
+func vC35_read() int64 {
+	r := vNondetInt64("clockReading")
+	vAssume(r >= vC35_lastRead+vC35_pending && r < 1<<61)
+	vC35_pending = 0
+	vC35_lastRead = r
+	return r
 }
-
-func vC35_clock() int64 { return vC35_base + vC35_nom + vC35_lat }
 
 // substituted for time.Now
 func vC35_now() time.Time {
-	vC35_tick()
-	return time.Unix(0, vC35_clock())
+	r := vC35_read()
+	if vC35_wantStart {
+		vC35_wantStart = false
+		vC35_codeStart = r
+	}
+	return time.Unix(0, r)
 }
 
 // substituted for time.Until
@@ -111,22 +125,66 @@ func vC35_newTimer(d time.Duration) *time.Timer {
 	if d <= 0 || d > relocationHandoffMaxBackoff {
 		vC35_badTimer = true
 	}
-	vC35_tick()
+	if vC35_local_checks {
+		vC35_sleepObligations(int64(d))
+	}
 	ch := make(chan time.Time, 1)
 	if vNondetBool("timerFires") || vC35_ctx.cancelled {
 		if d > 0 {
 			vC35_nom += int64(d)
+			vC35_pending += int64(d)
 		}
-		vC35_tick()
-		ch <- time.Unix(0, vC35_clock())
+		ch <- time.Unix(0, vC35_lastRead+vC35_pending)
 	} else {
 		part := vNondetInt64("elapsedBeforeCancel")
 		vAssume(part >= 0 && part <= int64(d))
 		vC35_nom += part
+		vC35_pending += part
 		vC35_ctx.cancelled = true
 		close(vC35_ctx.done)
 	}
 	return &time.Timer{C: ch}
+}
+
+// Per-sleep obligations. c is the clock reading on which the code based the sleep (nothing reads the clock between
+// time.Until and time.NewTimer). Together with "a timer of duration d ends d (+latency) later" they give, by induction
+// over the retry loop: every sleep ends no later than the deadline of its arm (+latency), hence the masking as a whole.
+func vC35_sleepObligations(d int64) {
+	c := vC35_lastRead
+	end := c + d
+	arm := int64(relocationHandoffWindow)
+	if vC35_maxWait > 0 && vC35_maxWait < arm {
+		arm = vC35_maxWait
+	}
+	armDL := vC35_codeStart + arm
+	if vC35_lastResolve == 1 {
+		vAssert(end <= armDL, "a sleep masking a target pinned to a departed endpoint ends within the handoff window and within the caller's timeout")
+		vCover("sleep-pinned")
+	} else {
+		vAssert(vC35_lastResolve == 3, "the code only sleeps after a pinned or a failed resolution")
+		if vC35_maxWait > 0 {
+			vAssert(end <= vC35_codeStart+vC35_maxWait, "a sleep masking a failed resolution never extends beyond the caller's timeout")
+		}
+		if !vC35_nfSleepSeen {
+			vC35_nfSleepSeen = true
+			vC35_nfFirstSleep = c
+		}
+		armDL = vC35_nfFirstSleep + int64(relocationNotFoundMaskWindow)
+		vAssert(end <= armDL, "a sleep masking a failed resolution ends within the not-found window of the first such sleep")
+		vCover("sleep-notfound")
+	}
+	// progress: the back-off never goes below its minimum, so a shorter sleep is one that was cut to end at its arm's
+	// deadline - after which that arm gives up. With at most one short sleep per arm and every other sleep lasting at
+	// least the minimum back-off inside a bounded window, the retry loop is bounded.
+	if d < int64(relocationHandoffMinBackoff) {
+		a := 0
+		if vC35_lastResolve == 3 {
+			a = 1
+		}
+		vAssert(!vC35_cutSeen[a], "each arm cuts a sleep short at most once (the next attempt on that arm gives up)")
+		vC35_cutSeen[a] = true
+		vCover("sleep-cut")
+	}
 }
 
 // substituted for (*time.Timer).Stop
@@ -139,13 +197,25 @@ func vC35_withDeadline(parent context.Context, d time.Time) (context.Context, co
 	return c, func() { vC35_cancelFns++ }
 }
 
+// substituted for address.FormatHostPort (host + ":" + strconv.Itoa(port)): exact for the only two ports that occur here
+// (9000, and 0 for address.NoSender()), which is asserted; avoids a symbolic decimal conversion
+func vC35_hostPort(host string, port int) string {
+	vAssert(port == 9000 || port == 0, "only the ports 9000 and 0 occur (harness sanity)")
+	if port == 9000 {
+		return host + ":9000"
+	}
+	return host + ":0"
+}
+
 // substituted for (*actorSystem).InCluster
 func vC35_inClusterFn(x *actorSystem) bool { return vC35_inCluster }
 
 // substituted for (*actorSystem).ActorOf: every resolution has an arbitrary outcome
 func vC35_actorOf(x *actorSystem, ctx context.Context, name string) (*PID, error) {
 	vC35_resolves++
-	vC35_tick()
+	if vC35_resolves == 1 {
+		vC35_wantStart = true
+	}
 	k := vChoose("resolve", 5)
 	vC35_lastResolve = k
 	vC35_lastResolved, vC35_lastErr = nil, nil
@@ -208,25 +278,29 @@ func vC35_retryable(err error) bool {
 }
 
 // the delivery callback: called with the context the code under test built; takes an arbitrary time but
-// honours the deadline of that context (plus latency)
+// honours its own timeout (if any) and the deadline of that context (plus latency)
 func vC35_deliver(ctx context.Context, to *PID) (any, error) {
 	vC35_delivers++
 	vC35_deliveredTo = to
 	c := ctx.(*vC35Context)
-	vC35_tick()
+	now := vC35_read()
 	vC35_deliverStart = vC35_nom
 	vC35_deliverDL = c.deadline
 	dur := vNondetInt64("deliverTime")
 	vAssume(dur >= 0 && dur <= 1<<61)
+	if vC35_ownTimeout > 0 {
+		// SendSync's callback is pid.Ask(ctx, to, message, timeout): it has the caller's timeout of its own
+		vAssume(dur <= vC35_ownTimeout)
+	}
 	if c.deadline != 0 {
-		allowed := c.deadline - vC35_clock()
+		allowed := c.deadline - now
 		if allowed < 0 {
 			allowed = 0
 		}
 		vAssume(dur <= allowed)
 	}
 	vC35_nom += dur
-	vC35_tick()
+	vC35_pending += dur
 	if vNondetBool("deliverFails") {
 		vC35_deliverErr = vC35_errDeliver
 		return nil, vC35_errDeliver
@@ -238,40 +312,51 @@ func vC35_deliver(ctx context.Context, to *PID) (any, error) {
 // common set-up: an actor system with one departed endpoint that may or may not still be inside its
 // handoff window, a local target, a remote target on the departed endpoint and one on a live endpoint
 func vC35_setup() *PID {
-	vC35_base = vNondetInt64("t0")
-	vAssume(vC35_base > 0 && vC35_base < 1<<40)
-	vC35_nom, vC35_lat = 0, 0
+	vC35_lastRead = vNondetInt64("t0")
+	vAssume(vC35_lastRead > 0 && vC35_lastRead < 1<<40)
+	vC35_nom, vC35_pending = 0, 0
 	vC35_resolves, vC35_timers, vC35_delivers, vC35_cancelFns = 0, 0, 0, 0
 	vC35_everPinned, vC35_seenNF, vC35_firstNFAt, vC35_badTimer = false, false, 0, false
+	vC35_cutSeen[0], vC35_cutSeen[1] = false, false
+	vC35_local_checks, vC35_wantStart, vC35_codeStart, vC35_nfSleepSeen, vC35_nfFirstSleep, vC35_maxWait = false, false, 0, false, 0, 0
 	vC35_deliveredTo, vC35_deliverErr, vC35_deliverDL, vC35_deliverStart = nil, nil, 0, 0
 	vC35_inCluster = vNondetBool("inCluster")
 	sys := &actorSystem{}
 	sys.relocatingEndpoints = xsync.NewTTLMap[string, types.Unit](relocationHandoffWindow)
-	vC35_local = &PID{}
+	vC35_local = &PID{address: address.NewReference("target", "sys", "10.0.0.1", 9000)}
 	vC35_remoteGone = newRemotePID(address.NewReference("target", "sys", "10.0.0.9", 9000), nil)
 	vC35_remoteLive = newRemotePID(address.NewReference("target", "sys", "10.0.0.7", 9000), nil)
 	if vNondetBool("endpointDeparted") {
+		// recorded at an arbitrary earlier time: the next clock reading is any later time
 		sys.relocatingEndpoints.Set(address.FormatHostPort("10.0.0.9", 9000), types.Unit{})
-		age := vNondetInt64("ageOfDeparture")
-		vAssume(age >= 0 && age <= 1<<40)
-		vC35_base += age
 	}
 	vC35_ctx = &vC35Context{done: make(chan struct{})}
 	return &PID{actorSystem: sys}
 }
 
-func vC35_across() {
+// main entry: per-sleep / per-delivery obligations + functional outcome, all loop iterations up to the unwind bound
+func vC35_across() { vC35_acrossRun(false) }
+
+// end-to-end entry: the same run with the global "requested waiting <= budget" inequalities, few iterations
+func vC35_across_e2e() { vC35_acrossRun(true) }
+
+func vC35_acrossRun(e2e bool) {
 	pid := vC35_setup()
 	maxWait := time.Duration(vNondetInt64("maxWait"))
 	vAssume(maxWait >= -(1<<62) && maxWait <= 1<<61)
+	vC35_ownTimeout = int64(maxWait)
+	vC35_maxWait = int64(maxWait)
+	vC35_local_checks = !e2e
 	got, err := pid.deliverAcrossHandoff(vC35_ctx, "target", maxWait, vC35_deliver)
 
 	vAssert(vC35_delivers <= 1, "the message is delivered at most once")
 	vAssert(!vC35_badTimer, "every back-off sleep is positive and at most the maximum back-off")
 	if maxWait > 0 {
-		vAssert(vC35_nom <= int64(maxWait), "the whole operation (masking + delivery) stays within the caller's timeout, up to latency")
-		if vC35_delivers == 1 {
-			vAssert(vC35_deliverDL != 0, "with a caller timeout the delivery gets a deadline")
+		if vC35_delivers == 1 && vC35_inCluster {
+			vAssert(vC35_deliverDL == vC35_codeStart+int64(maxWait), "inside a cluster the delivery is given exactly the caller's remaining budget (deadline = start + timeout)")
+		}
+		if e2e {
+			vAssert(vC35_nom <= int64(maxWait), "the whole operation (masking + delivery) stays within the caller's timeout, up to latency")
 		}
 	} else {
 		masked := vC35_nom
@@ -279,7 +364,9 @@ func vC35_across() {
 			masked = vC35_deliverStart
 			vAssert(vC35_deliverDL == 0, "without a caller timeout the delivery gets the caller's own context")
 		}
-		vAssert(masked <= int64(relocationHandoffWindow+relocationNotFoundMaskWindow), "without a caller timeout masking is bounded by the handoff window plus the not-found window, up to latency")
+		if e2e {
+			vAssert(masked <= int64(relocationHandoffWindow+relocationNotFoundMaskWindow), "without a caller timeout masking is bounded by the handoff window plus the not-found window, up to latency")
+		}
 	}
 	if !vC35_inCluster {
 		vAssert(vC35_resolves == 1 && vC35_timers == 0, "outside a cluster: one resolution, no sleep")
@@ -306,7 +393,9 @@ func vC35_across() {
 		case vC35_lastResolve == 3:
 			vAssert(vC35_lastErr == err && vC35_retryable(err), "masking a failed resolution gives up with that (retryable) error")
 			if vC35_inCluster && !vC35_everPinned && vC35_timers > 0 {
-				vAssert(vC35_nom-vC35_firstNFAt <= int64(relocationNotFoundMaskWindow), "a name that only ever fails to resolve is masked for at most the not-found window, up to latency")
+				if e2e {
+					vAssert(vC35_nom-vC35_firstNFAt <= int64(relocationNotFoundMaskWindow), "a name that only ever fails to resolve is masked for at most the not-found window, up to latency")
+				}
 				vCover("notfound-gave-up")
 			}
 			if vC35_timers == 0 {
@@ -323,11 +412,15 @@ func vC35_across() {
 	if vC35_timers >= 10 {
 		vCover("ten-sleeps")
 	}
+	if vC35_everPinned && vC35_timers > 0 {
+		vCover("pinned-masked")
+	}
 	vCover("end")
 }
 
 func vC35_bypass() {
 	pid := vC35_setup()
+	vC35_ownTimeout = 0
 	got, err := pid.deliverBypassingHandoff(vC35_ctx, "target", vC35_deliver)
 	vAssert(vC35_resolves == 1, "the asynchronous send resolves exactly once")
 	vAssert(vC35_timers == 0, "the asynchronous send never sleeps")
